@@ -202,4 +202,131 @@ theorem bot_inv_composed (c : Compose.Conf) (hfix : c.bot.fixed = true) (hsize :
   · exact absurd hret.1 hzero
   · exact absurd hret.1 hzero
 
+
+/-! ## the two real bots with the alpha-beta model as searching player -/
+
+open Search in
+/-- `ai.NewMinimax(cfg)` as the searching player; per call the model needs an oracle (cancellation as observed by
+the search, `sort.Sort`, `math/rand`) whose `sort.Sort` permutes -/
+def minimaxOK (basis : Array W) (ev : Pos → Int) (sym : Pos → List Search.H) (scfg : Search.Cfg) :
+    Searcher (Search.Eng Move) { o : Search.Oracle Move // Search.OrderOK o } :=
+  { run := fun o p s => Search.getMove (Search.takGame basis ev sym) scfg o.1 p s }
+
+/-- **the engine-state invariant** `C07_pv` / `C20_pv` / `C17_pv` assume of the engine they are given: every hint the
+engine holds (table entries, response map, PV buffers) is the zero move or a move `AllMoves` generated for a position of
+a board of size 3..8 -/
+def EngInv (basis : Array W) (ev : Pos → Int) (sym : Pos → List Search.H) (s : Search.Eng Move) : Prop :=
+  Search.EngOK (Search.takGame basis ev sym) (C04.FromGen (Search.takGame basis ev sym) C04.SizeOK) (fun _ => False) s
+
+/-- what `NewGame` builds satisfies it … -/
+theorem engInv_new (basis : Array W) (ev : Pos → Int) (sym : Pos → List Search.H) (scfg : Search.Cfg) :
+    EngInv basis ev sym (Search.Eng.new (Search.takGame basis ev sym) scfg) :=
+  C04.engOK_new_fromGen _ _ _ scfg
+
+/-- … and every `GetMove` on a `n`×`n` position keeps it: any options, any table size, any cancellation, any random
+stream, whatever the position (finished or not) and the evaluator -/
+theorem minimax_keeps_engInv (basis : Array W) (ev : Pos → Int) (sym : Pos → List Search.H) (scfg : Search.Cfg)
+    (n : Nat) (hn : 3 ≤ n ∧ n ≤ 8) :
+    ∀ x p e m e', p.cfg.size = n → EngInv basis ev sym e → (minimaxOK basis ev sym scfg).run x p e = .ok (m, e') →
+      EngInv basis ev sym e' := by
+  intro x p e m e' hp he hrun
+  have hP := C04.prov_noTable (C04.sizeOK_closed basis ev sym) (C04.OrderOK.sub x.2)
+  exact (Search.getMove_engOK hP scfg p ⟨by rw [hp]; exact hn.1, by rw [hp]; exact hn.2⟩ (Or.inl rfl) e he (m, e') hrun).1
+
+theorem callOK_friendly {c : Compose.Conf} {var : Option Variant} (hw : c.who = .friendly var) {call : Call}
+    (h : CallOK c call) :
+    Glue.friendlyGetMove call.fpa { color := c.bot.color, size := c.size, positions := call.positions, moves := call.moves }
+      call.pos call.chk = .ok (call.fpa', call.act) := by
+  unfold CallOK glueOn at h
+  rw [hw] at h
+  exact h
+
+theorem callOK_taktician {c : Compose.Conf} {tc : TakticianCfg} (hw : c.who = .taktician tc) {call : Call}
+    (h : CallOK c call) : call.act = takticianGetMove tc c.bot.color c.size call.pos call.mine := by
+  unfold CallOK glueOn at h
+  rw [hw] at h
+  injection h with h
+  exact (Prod.mk.inj h).2.symm
+
+/-- **`bot_inv_friendly`** — `PlayGame` / `ObserveGame` with the real `Friendly` (any FPA variant or none) as `Bot` and
+the alpha-beta model, created once by `NewGame`, as its searching player.  For every colour, board size 3..8, clock,
+engine configuration, evaluator and EVERY event list:
+1. C07's invariant;
+2. the engine state is `EngInv` after every event — from `NewMinimax` through every call the bot makes;
+3. every transmitted move was returned by a `Friendly.GetMove` call for exactly the position it was transmitted in,
+   which read the record `call.positions` / `call.moves` and the rule notes `call.fpa`, and is **the rule's scripted
+   move** (`.move`) **or the engine's answer for exactly that position** (`Search.getMove … rec.recAt eng`) from an
+   `EngInv` state;
+4. a call resigns **iff** an FPA rule is installed and its check rejects the newest pair of the record the call read;
+5. what is sent from inside `GetMove` is exactly `Resign` + `Tell` for those calls, in order. -/
+theorem bot_inv_friendly (c : Compose.Conf) (var : Option Variant) (hw : c.who = .friendly var)
+    (hfix : c.bot.fixed = true) (hsize : 3 ≤ c.size ∧ c.size ≤ 8)
+    (ev : Pos → Int) (sym : Pos → List Search.H) (scfg : Search.Cfg) (secs : Int)
+    (evs : List (Compose.Ev { o : Search.Oracle Move // Search.OrderOK o })) :
+    let g := Search.takGame c.bot.basis ev sym
+    let s := Compose.run c (minimaxOK c.bot.basis ev sym scfg) (Compose.start c secs (Search.Eng.new g scfg)) evs
+    Inv c.bot s.b ∧ EngInv c.bot.basis ev sym s.eng ∧
+    (∀ rec ∈ s.b.log, ∃ call ∈ s.calls, call.pos = rec.recAt ∧
+      ∃ a, Glue.friendlyGetMove call.fpa { color := c.bot.color, size := c.size, positions := call.positions, moves := call.moves }
+            rec.recAt call.chk = .ok (call.fpa', a) ∧
+        (a = .move rec.move ∨
+         ∃ lim fl o eng eng', a = .think lim fl ∧ EngInv c.bot.basis ev sym eng ∧ Search.OrderOK o ∧
+           Search.getMove g scfg o rec.recAt eng = .ok (rec.move, eng'))) ∧
+    (∀ call ∈ s.calls, ((∃ msg, call.act = .resign msg) ↔
+      ∃ v r r', call.fpa = some (v, r) ∧
+        prevCheck v r { color := c.bot.color, size := c.size, positions := call.positions, moves := call.moves } call.pos = .ok (r', false))) ∧
+    glueWire s.wire = s.calls.flatMap (fun call => resignWire call.act) := by
+  intro g s
+  obtain ⟨h1, h2, h3, h4, h5⟩ := bot_inv_composed c hfix hsize (minimaxOK c.bot.basis ev sym scfg) (EngInv c.bot.basis ev sym)
+    (minimax_keeps_engInv c.bot.basis ev sym scfg c.size hsize) secs _ (engInv_new c.bot.basis ev sym scfg) evs
+  refine ⟨h1, h5, ?_, ?_, h4⟩
+  · intro rec hrec
+    obtain ⟨r, _, _, hpos, hcall, hok, hG, hsrc⟩ := h2 rec hrec
+    have hf := callOK_friendly hw hok
+    rw [hpos] at hf
+    refine ⟨r.call, hcall, hpos, r.call.act, hf, ?_⟩
+    rcases hsrc with h | ⟨lim, fl, x, eng', hact, _, hrun⟩
+    · exact .inl h
+    · exact .inr ⟨lim, fl, x.1, r.eng, eng', hact, hG, x.2, hrun⟩
+  · intro call hcall
+    exact C20.friendly_resigns_iff_rule_rejects _ _ _ _ _ _ (callOK_friendly hw (h3 call hcall))
+
+theorem resignWire_of_not_sends {a : Action} (h : a.sends = false) : resignWire a = [] := by
+  cases a <;> first | rfl | cases h
+
+/-- **`bot_inv_taktician`** — the same with the real `Taktician` (`-limit`, `-use-opponent-time` as configured):
+C07's invariant; the engine state is `EngInv` throughout; every transmitted move is **the engine's answer for exactly
+the position it was transmitted in**, searched under the timeout rule of `taktician_timeout_rule` (20 s for the first
+two plies, `-limit` afterwards) from an `EngInv` state; nothing is ever sent from inside `GetMove`. -/
+theorem bot_inv_taktician (c : Compose.Conf) (tc : TakticianCfg) (hw : c.who = .taktician tc)
+    (hfix : c.bot.fixed = true) (hsize : 3 ≤ c.size ∧ c.size ≤ 8)
+    (ev : Pos → Int) (sym : Pos → List Search.H) (scfg : Search.Cfg) (secs : Int)
+    (evs : List (Compose.Ev { o : Search.Oracle Move // Search.OrderOK o })) :
+    let g := Search.takGame c.bot.basis ev sym
+    let s := Compose.run c (minimaxOK c.bot.basis ev sym scfg) (Compose.start c secs (Search.Eng.new g scfg)) evs
+    Inv c.bot s.b ∧ EngInv c.bot.basis ev sym s.eng ∧
+    (∀ rec ∈ s.b.log, ∃ o eng eng', EngInv c.bot.basis ev sym eng ∧ Search.OrderOK o ∧
+      Search.getMove g scfg o rec.recAt eng = .ok (rec.move, eng') ∧
+      ∃ mine, takticianGetMove tc c.bot.color c.size rec.recAt mine =
+        .think (some (if rec.recAt.move < 2 then 20 * 1000000000 else tc.limit)) none) ∧
+    glueWire s.wire = [] := by
+  intro g s
+  obtain ⟨h1, h2, h3, h4, h5⟩ := bot_inv_composed c hfix hsize (minimaxOK c.bot.basis ev sym scfg) (EngInv c.bot.basis ev sym)
+    (minimax_keeps_engInv c.bot.basis ev sym scfg c.size hsize) secs _ (engInv_new c.bot.basis ev sym scfg) evs
+  refine ⟨h1, h5, ?_, ?_⟩
+  · intro rec hrec
+    obtain ⟨r, _, _, hpos, hcall, hok, hG, hsrc⟩ := h2 rec hrec
+    have ha := callOK_taktician hw hok
+    rw [hpos] at ha
+    have hturn := (h1.sends rec hrec).onTurn
+    rcases hsrc with h | ⟨lim, fl, x, eng', hact, _, hrun⟩
+    · rw [ha, C20.taktician_timeout_rule tc c.bot.color c.size rec.recAt r.call.mine hturn] at h
+      cases h
+    · exact ⟨x.1, r.eng, eng', hG, x.2, hrun, r.call.mine, C20.taktician_timeout_rule tc c.bot.color c.size rec.recAt r.call.mine hturn⟩
+  · rw [h4]
+    apply List.flatMap_eq_nil_iff.mpr
+    intro call hcall
+    rw [callOK_taktician hw (h3 call hcall)]
+    exact resignWire_of_not_sends (C20.taktician_never_sends tc c.bot.color c.size call.pos call.mine).1
+
 end C07
